@@ -596,6 +596,10 @@ def main():
         if a.replay:
             return replay_only(a.replay, scratch)
         spec = load_spec(a.pid)
+        cfg = check_level_config(a.pid, spec)
+        if cfg:
+            print('UNDECIDED property=%s configuration error: %s' % (a.pid, cfg))
+            return 2
         groups = [g for g in spec.GROUPS if a.tier == 'thorough' or g.get('tier', 'quick') == 'quick']
         if a.group:
             groups = [g for g in groups if g['name'] in a.group]
@@ -674,6 +678,25 @@ def main():
             print('scratch kept at', scratch)
 
 
+def check_level_config(pid, spec):
+    """The evidence level is spec.LEVEL; it must be what MANIFEST.json claims for the property, and a spec that
+    declares 'proof' must not rely on a bounded group in its quick tier (bounded is never counted as proved)."""
+    level = getattr(spec, 'LEVEL', 'proof')
+    if level == 'proof' and any(g['kind'] == 'bounded' and g.get('tier', 'quick') == 'quick' for g in spec.GROUPS):
+        return "specs/%s.py declares LEVEL='proof' but has bounded quick-tier groups" % pid
+    try:
+        with open(os.path.join(VERIF, 'MANIFEST.json')) as f:
+            man = json.load(f)
+    except (OSError, ValueError):
+        return None
+    for c in man.get('checks', []):
+        if c.get('property_id') == pid:
+            claimed = c.get('level_claimed', {}).get('category')
+            if claimed != level:
+                return "MANIFEST level_claimed.category is %r but specs/%s.py LEVEL is %r" % (claimed, pid, level)
+    return None
+
+
 def write_evidence(pid, tier, seed, spec, groups, results, wall, violations, known_hits, undecided):
     tot = sum(r['obligations'] for r in results)
     dis = sum(r['discharged'] for r in results)
@@ -683,11 +706,14 @@ def write_evidence(pid, tier, seed, spec, groups, results, wall, violations, kno
         k['groups'] += 1
         k['obligations'] += r['obligations']
         k['discharged'] += r['discharged']
+    # The level is the one the spec declares (and MANIFEST claims; check_level_config() keeps the two equal), in
+    # every tier.  A 'proof' spec may carry extra BOUNDED groups in the thorough tier only: a bounded stand-in is
+    # never counted as proved, so for a proof-level record obligations/discharged count the unbounded and
+    # width-bounded groups only and the bounded extras are reported apart (bounded_stand_in, by_kind, groups).
     level = getattr(spec, 'LEVEL', 'proof')
-    if level == 'proof' and any(r['kind'] == 'bounded' for r in results):
-        level = 'model_checking'   # a bounded stand-in is never counted as proved
-    if level == 'proof' and (dis != tot or undecided):
-        level = 'other'
+    if level == 'proof':
+        tot = sum(r['obligations'] for r in results if r['kind'] != 'bounded')
+        dis = sum(r['discharged'] for r in results if r['kind'] != 'bounded')
     samples = []
     for r in results:
         for s in r['samples'][:3]:
